@@ -260,6 +260,12 @@ def strategy():
         h = draw(st.integers(1, 8))
         if kind == 'ascending':
             base = sorted(draw(st.lists(st.one_of(st.integers(-5, 40), st.integers(0, 80).map(lambda k: k / 2)), min_size=h, max_size=h)))
+            if h >= 2 and draw(st.integers(0, 2)) == 0:
+                # a run of equal keys (approximate matching answers with the last row of the run)
+                i = draw(st.integers(0, h - 2))
+                for j in range(i + 1, min(h, i + 1 + draw(st.integers(1, 3)))):
+                    base[j] = base[i]
+                base = sorted(base)
             keys = base
         elif kind == 'unsorted':
             keys = draw(st.lists(st.one_of(st.integers(-5, 20), st.sampled_from([2.5, 7.5])), min_size=h, max_size=h))
@@ -267,6 +273,9 @@ def strategy():
             keys = draw(st.lists(st.sampled_from(WORDS), min_size=h, max_size=h))
         else:
             keys = draw(st.lists(st.one_of(st.integers(1, 20), st.none(), st.sampled_from(WORDS)), min_size=h, max_size=h))
+            if draw(st.booleans()):
+                keys = keys + [None] * draw(st.integers(1, 3))     # the key range reaches below the last key
+                h = len(keys)
         keys = [int(k) if isinstance(k, float) and k == int(k) else k for k in keys]
         width = draw(st.integers(1, 4))
         present = [k for k in keys if k is not None]
